@@ -241,7 +241,11 @@ class ConnectionPool(RequestInterface):
                     # handle a request, but then become unavailable.
                     #
                     # In this case we clear the connection and try again.
-                    pool_request.clear_connection()
+                    #
+                    # The lock keeps another thread's assignment pass from
+                    # running half way through this.
+                    with self._optional_thread_lock:
+                        pool_request.clear_connection()
                 else:
                     break  # pragma: nocover
 
